@@ -529,8 +529,21 @@ namespace chaiscript {
         } else if ((loc & static_cast<uint_fast32_t>(Loc::is_local)) != 0u) {
           auto &stack = get_stack_data(t_holder);
 
-          return stack[stack.size() - 1 - ((loc & static_cast<uint_fast32_t>(Loc::stack_mask)) >> 16)].at_index(
-              loc & static_cast<uint_fast32_t>(Loc::loc_mask));
+          // The hint was recorded for the scope layout of an earlier evaluation of this node. The same code can run
+          // under a different layout (variables added by eval()/use() inside a function, a lambda called directly and
+          // as an attribute, ...): only trust the slot if it exists and still holds this name.
+          const auto scope_distance = (loc & static_cast<uint_fast32_t>(Loc::stack_mask)) >> 16;
+          const auto slot = loc & static_cast<uint_fast32_t>(Loc::loc_mask);
+          if (scope_distance < stack.size()) {
+            auto &scope = stack[stack.size() - 1 - scope_distance];
+            if (slot < scope.size() && (scope.begin() + static_cast<std::ptrdiff_t>(slot))->first == name) {
+              return scope.at_index(slot);
+            }
+          }
+
+          // stale hint: resolve by name again
+          t_loc = 0;
+          return get_object(name, t_loc, t_holder);
         }
 
         // Is the value we are looking for a global or function?
